@@ -90,22 +90,32 @@ BudgetPred(x, ev) ==
     \* "at least n evaluations have been made": judged on the invocations the trace has seen (x.ffn),
     \* not on the counter the implementation reports (whose honesty is C13's business)
     CASE Cfg.budget = "eval"   -> EvalBudgetDone(x.ffn, Cfg.n)
+      \* TimeBudget in virtual time: the driver's clock advances one second per fitness invocation and the limit
+      \* is n - 0.5 seconds, so "elapsed >= limit" is "at least n invocations"
+      [] Cfg.budget = "time"   -> EvalBudgetDone(x.ffn, Cfg.n)
       [] Cfg.budget = "target" -> TargetDone(ev.hasbest, ev.c, ev.tlo, ev.thi)
       [] Cfg.budget = "anyof"  -> TargetDone(ev.hasbest, ev.c, ev.tlo, ev.thi) \/ EvalBudgetDone(x.ffn, Cfg.n)
+      \* multi-objective targets (TargetMultiFitness / TargetMultiSameFitness, in a disjunction with an evaluation
+      \* budget): every component of the first reported best within tolerance of its target; no best yet -> not done
+      [] Cfg.budget \in {"mtarget", "msame"} ->
+             \/ (ev.hasbest /\ \A k \in DOMAIN ev.cs : TargetDone(TRUE, ev.cs[k][1], ev.cs[k][2], ev.cs[k][3]))
+             \/ EvalBudgetDone(x.ffn, Cfg.n)
       [] OTHER -> FALSE
 
 CheckClauses(x, ev) ==
     (IF ev.count # x.ffn THEN <<<<"C13", "C13:counter#invocations">>>> ELSE <<>>)
     \o (IF ev.done # BudgetPred(x, ev)
         THEN <<<<"C14", IF Cfg.budget = "eval" THEN "C14:budget-verdict"
-                        ELSE IF Cfg.budget = "target" THEN "C14:target-verdict" ELSE "C14:anyof-verdict">>>>
+                        ELSE IF Cfg.budget = "target" THEN "C14:target-verdict"
+                        ELSE IF Cfg.budget = "time" THEN "C14:time-verdict"
+                        ELSE IF Cfg.budget \in {"mtarget", "msame"} THEN "C14:multi-target-verdict" ELSE "C14:anyof-verdict">>>>
         ELSE <<>>)
     \o (IF x.done THEN <<<<"C14", "C14:check-after-done">>>> ELSE <<>>)
 
 RetClauses(x, ev) ==
     (IF ~x.done THEN <<<<"C14", "C14:returned-without-done-check">>>> ELSE <<>>)
     \o (IF ev.count # x.ffn THEN <<<<"C13", "C13:counter#invocations">>>> ELSE <<>>)
-    \o (IF Cfg.budget = "eval" /\ ~(Cfg.n <= x.ffn /\ x.ffn < Cfg.n + (IF Cfg.n <= Cfg.fb THEN Cfg.fb ELSE Cfg.b))
+    \o (IF Cfg.budget \in {"eval", "time"} /\ ~(Cfg.n <= x.ffn /\ x.ffn < Cfg.n + (IF Cfg.n <= Cfg.fb THEN Cfg.fb ELSE Cfg.b))
         THEN <<<<"C14", "C14:total-out-of-window">>>> ELSE <<>>)
     \o (IF ev.ind = 0 \/ ~HasFit(x.t, ev.ind) \/ Agg(FitOf(x.t, ev.ind), Mini) # x.t.maxagg
         THEN <<<<"C12", "C12:returned#best">>>>
@@ -144,6 +154,8 @@ AllClauses(x, ev) ==
       [] ev.e = "check" -> CheckClauses(x, ev)
       [] ev.e = "ret"   -> RetClauses(x, ev)
       [] ev.e = "lasso" -> LassoClauses(x, ev)
+      \* a search given a well-formed budget ends by returning: an exception is not a termination
+      [] ev.e = "runfail" -> <<<<"C14", "C14:search-raises">>>>
       [] ev.e = "present" -> <<>>
       [] ev.e = "born" -> <<>>
       [] ev.e = "endpresent" ->
@@ -163,6 +175,7 @@ AttrsOf(x, ev) ==
               /\ Agg(FitOf(x.t, ev.ind), Mini) = x.t.maxagg -> <<Cfg.alg, Cfg.step>>     \* returned-worse-than-evaluated
       [] ev.e = "lasso" -> <<Cfg.alg, IF ev.ffs = 0 THEN "fresh-per-generation=0" ELSE "fresh-per-generation>0">>
       [] ev.e = "evalcall" -> <<"evaluator", IF Cfg.multi THEN "multi" ELSE "single", ev.evaluator>>
+      [] ev.e = "runfail" -> <<Cfg.alg, Cfg.budget, ev.exc>>
       [] OTHER -> <<Cfg.alg, IF Cfg.multi THEN "multi" ELSE "single", Cfg.evaluator>>
 
 TInit   == tid \in 1..NTraces /\ InitWith(S0)
